@@ -282,8 +282,14 @@ def r09c(model: Model, rr: RuleResult):
         rr.ok("maybe_run_ninja is the last step, after configs and graph are written")
     # _write_config_for_build writes through config.write
     wfi = model.func("nanoemoji", "_write_config_for_build")
-    if find_calls(wfi, "write"):
-        rr.ok("_write_config_for_build calls config.write")
+    ww = [c for c in calls_in(wfi) if norm(c.func) == "config.write"]
+    if len(ww) == 1:
+        wcfg = cfg_of(wfi)
+        if wcfg.postdominates(wcfg.node_for(ww[0]), wcfg.entry) and not guard_facts(wcfg, wcfg.node_for(ww[0]), skip_abort_guards=True):
+            rr.ok("_write_config_for_build writes the resolved config on every path (no 'already up to date' shortcut)")
+        else:
+            rr.bad(wfi, ww[0], "_write_config_for_build can return without writing the resolved config: a stale <output>.toml from an earlier invocation is kept, so "
+                   "options given by flag (which such a comparison re-applies to the old file) never reach the worker", construct="_write_config_for_build: path that skips config.write")
     else:
         rr.bad(wfi, wfi.node, "_write_config_for_build no longer writes the config", construct="_write_config_for_build: no config.write")
 
